@@ -523,6 +523,9 @@ func c04Check(c *core.Ctx, root *spec.Node, mode ref.Mode, data any, val any, ce
 }
 
 func (c04) RunCase(c *core.Ctx) {
+	if c.Case%97 == 23 && !w10(c, "C04") {
+		return
+	}
 	if c.Case%500 == 77 {
 		c.Eval(3)
 		if problem := dWideAndDeep(); problem != "" && strings.HasPrefix(problem, "Parse") {
